@@ -176,7 +176,7 @@ func (e *Engine) registerIntrinsics() {
 	}
 	in["(*sync.Map).Range"] = func(c *PathCtx, fr *frame, args []Value) Value {
 		m := syncMap(c, args[0])
-		it := &mapIter{m: m, order: c.entry.MapOrder, pending: append([]Value{}, m.keys...)}
+		it := &mapIter{m: m, order: c.entry.MapOrder && c.lenient == 0, pending: append([]Value{}, m.keys...)}
 		for {
 			t := it.next(c)
 			if !t[0].(*Term).Bool() {
